@@ -139,7 +139,7 @@ var reqId uint64
 
 func newTx(typ int32, src, data string) *types.Transaction {
 	reqId++
-	t := &types.Transaction{Source: src, Type: typ, Data: data, RequestId: reqId, Sign: &common.Sign{}}
+	t := &types.Transaction{Source: src, Type: typ, Data: data, RequestId: reqId, Nonce: reqId, Sign: &common.Sign{}} // the nonce makes equal requests distinct transactions
 	t.Hash = t.GenHash()
 	return t
 }
